@@ -58,13 +58,14 @@ Definition outputs_all_or_nothing (c : N) (unfailed failed : outcome) : Prop :=
   failed = unfailed \/ failed = OStop \/ exists b', failed = OOk b' [(c, MError ENoMemory)].
 
 (* ---- well-formed prior states ------------------------------------------------- *)
-(* every name in the registry has a non-empty queue of live owners *)
-Definition good_queue (q : queue) : Prop := q <> [] /\ forallb o_live q = true.
+(* every name in the registry has a non-empty queue of live owners, no connection twice in it *)
+Definition good_queue (q : queue) : Prop := q <> [] /\ forallb o_live q = true /\ NoDup (map o_conn q).
 Definition inv (b : bus) : Prop := Forall (fun kq => good_queue (snd kq)) (b_services b).
 
 (* ---- the exceptions ------------------------------------------------------------- *)
 (* request classes for which the bus does NOT satisfy the property (findings
-   F10a-c, F14.1), as a test on the prior state *)
+   F10a-c), as a test on the prior state.  (F14.1, the broken restore hook, is
+   fixed: releasing a name one owns and replacing an owner are covered now.) *)
 Definition same_flags (o : owner) (flags : N) : bool :=
   Bool.eqb (o_allow o) (has_flag flags DBUS_NAME_FLAG_ALLOW_REPLACEMENT) && Bool.eqb (o_dnq o) (has_flag flags DBUS_NAME_FLAG_DO_NOT_QUEUE).
 
@@ -92,7 +93,7 @@ Definition uncovered (b : bus) (e : event) : bool :=
                 | Some o => negb (negb repl && same_flags o flags)                      (* F10b: a waiter changes flags / position *)
                 | None => false
                 end
-              else true                                                                (* F14.1: the owner gets replaced *)
+              else match find_owner q c with Some _ => true | None => false end        (* F10b: a waiter is moved up, then replaces *)
           end
       end
   | EvRelease c name =>
@@ -102,7 +103,10 @@ Definition uncovered (b : bus) (e : event) : bool :=
           if negb (c_active cn) || name_refused name then false else
           match lookup (b_services b) (KW name) with
           | None => false
-          | Some q => match find_owner q c with Some _ => true | None => false end   (* F14.1 (owner) / F10a (waiter) *)
+          | Some [] => false
+          | Some ((p :: _) as q) =>
+              if o_conn p =? c then false
+              else match find_owner q c with Some _ => true | None => false end          (* F10a: a waiter leaves the queue *)
           end
       end
   | EvAddMatch c _ | EvRemoveMatch c _ =>
